@@ -2,7 +2,7 @@
 #pragma once
 namespace vs
 {
-constexpr int N_TYPED_SITES = 47;
+constexpr int N_TYPED_SITES = 55;
 
 inline std::string typed_sanitize(std::string const& s)
 {
@@ -158,6 +158,23 @@ namespace vs
     begin_invoke();                                                                                           \
     sim::AllocCounters const before = sim::alloc_counters();                                                  \
     QUILL_LOG_INFO(lg, "#{}# " FMTSTR, id, __VA_ARGS__);                                                      \
+    sim::AllocCounters const after = sim::alloc_counters();                                                   \
+    mallocs = after.mallocs - before.mallocs;                                                                 \
+    mmaps = after.mmaps - before.mmaps;                                                                       \
+  } while (0)
+
+// A statement through another macro family (LOGV_, LOGJ_, _LIMIT, _LIMIT_EVERY_N, _TAGS, runtime metadata): EXPECTED is the
+// call-site formatting of what the family documents, CALL the real macro.
+#define VS_MSITE(C11OK, EXPECTED, CALL)                                                                       \
+  do                                                                                                          \
+  {                                                                                                           \
+    c11ok = (C11OK);                                                                                          \
+    suppress_formatter_events = true;                                                                         \
+    expected = typed_sanitize(EXPECTED);                                                                      \
+    suppress_formatter_events = false;                                                                        \
+    begin_invoke();                                                                                           \
+    sim::AllocCounters const before = sim::alloc_counters();                                                  \
+    CALL;                                                                                                     \
     sim::AllocCounters const after = sim::alloc_counters();                                                   \
     mallocs = after.mallocs - before.mallocs;                                                                 \
     mmaps = after.mmaps - before.mmaps;                                                                       \
@@ -714,6 +731,109 @@ void VM<FO>::do_log_typed(int tid, int opi, Op const& op)
     {
       e.assign(e.size(), '!');
     }
+    break;
+  }
+  // ---- other macro families (the id travels as the value "#<id>#" of a variable called sid where the family builds the
+  //      format string from the variable names)
+  case 47:
+  {
+    std::string sid = "#" + std::to_string(id) + "#";
+    int64_t a = i64();
+    std::string str = typed_str(r, 24, sflav);
+    std::string_view sv{str};
+    VS_MSITE(true, fmtquill::format("vmsg [sid: {}, a: {}, sv: {}]", sid, a, sv), QUILL_LOGV_INFO(lg, "vmsg", sid, a, sv));
+    str.assign(str.size(), '!');
+    sid.assign(sid.size(), '!');
+    break;
+  }
+  case 48:
+  {
+    std::string sid = "#" + std::to_string(id) + "#";
+    int64_t a = i64();
+    std::string str = typed_str(r, 24, 0);
+    std::string_view sv{str};
+    VS_MSITE(true, fmtquill::format("jmsg {}, {}, {}", sid, a, sv), QUILL_LOGJ_INFO(lg, "jmsg", sid, a, sv));
+    str.assign(str.size(), '!');
+    sid.assign(sid.size(), '!');
+    break;
+  }
+  case 49:
+  {
+    // rate limited with a zero interval: every call logs, with the occurrence count appended
+    double a = dbl();
+    VS_MSITE(true, fmtquill::format("#{}# lim {} (1x)", id, a),
+             QUILL_LOG_INFO_LIMIT(std::chrono::nanoseconds{0}, lg, "#{}# lim {}", id, a));
+    break;
+  }
+  case 50:
+  {
+    // every third call of this thread at this site logs (the macro keeps thread-local counters; mirrored here)
+    thread_local uint64_t call_count = 0, next_log_at = 0;
+    bool const counted = lg->template should_log_statement<quill::LogLevel::Info>();
+    bool const will = counted && call_count == next_log_at;
+    if (will)
+    {
+      next_log_at += 3;
+    }
+    if (counted)
+    {
+      ++call_count;
+    }
+    uint64_t a = u64();
+    if (will)
+    {
+      c11ok = true;
+      expected = fmtquill::format("#{}# nth {}", id, a);
+      begin_invoke();
+    }
+    // (one expansion only: the macro's counters belong to the source location)
+    sim::AllocCounters const before = sim::alloc_counters();
+    QUILL_LOG_INFO_LIMIT_EVERY_N(3, lg, "#{}# nth {}", id, a);
+    sim::AllocCounters const after = sim::alloc_counters();
+    if (!will)
+    {
+      // it must have stayed silent: a statement written now carries an id the history does not know
+      return;
+    }
+    mallocs = after.mallocs - before.mallocs;
+    mmaps = after.mmaps - before.mmaps;
+    break;
+  }
+  case 51:
+  {
+    std::string str = typed_str(r, 24, sflav);
+    VS_MSITE(true, fmtquill::format("#{}# tag {}", id, str), QUILL_LOG_INFO_TAGS(lg, QUILL_TAGS("vt1", "vt2"), "#{}# tag {}", id, str));
+    str.assign(str.size(), '!');
+    break;
+  }
+  case 52:
+  {
+    // source location supplied at run time: file, line and function travel as extra arguments behind a separator
+    std::string str = typed_str(r, 24, 0);
+    char file[] = "rt_file.cpp";
+    char func[] = "rt_function";
+    int a = static_cast<int>(i64());
+    VS_MSITE(true, fmtquill::format("#{}# rtm {} {}", id, str, a),
+             QUILL_LOG_RUNTIME_METADATA(lg, quill::LogLevel::Info, file, 77, func, "#{}# rtm {} {}", id, str, a));
+    str.assign(str.size(), '!');
+    std::memset(file, '!', sizeof(file) - 1);
+    std::memset(func, '!', sizeof(func) - 1);
+    break;
+  }
+  case 53:
+  {
+    std::string sid = "#" + std::to_string(id) + "#";
+    int a = static_cast<int>(i64());
+    VS_MSITE(true, fmtquill::format("jl {}, {} (1x)", sid, a), QUILL_LOGJ_INFO_LIMIT(std::chrono::nanoseconds{0}, lg, "jl", sid, a));
+    sid.assign(sid.size(), '!');
+    break;
+  }
+  case 54:
+  {
+    std::string sid = "#" + std::to_string(id) + "#";
+    double a = dbl();
+    VS_MSITE(true, fmtquill::format("dv [sid: {}, a: {}]", sid, a), QUILL_LOGV_DYNAMIC(lg, quill::LogLevel::Info, "dv", sid, a));
+    sid.assign(sid.size(), '!');
     break;
   }
   default:
